@@ -90,3 +90,6 @@ func spec_ucb(c byte) byte {
 // Split with a non-empty separator returns at least one substring, in a fresh slice.
 //@ ext strings.Split(s string, sep string) (r []string)
 //@   ensures len(sep) > 0 ==> len(r) >= 1 && vcFresh(r)
+
+//@ ext strings.ReplaceAll(s string, old string, new string) (r string)
+//@   pure
